@@ -410,6 +410,34 @@ def run_illegal(case, ses):
         m.st(y >= 0)
         y.adapt(z)
 
+    def ldr_slice_after_use():
+        m = ro.Model()
+        z = m.rvar(2)
+        y = m.ldr(2)
+        m.st(y[0] <= 1)
+        y.adapt(z)
+
+    def ldr_expr_after_use():
+        m = ro.Model()
+        z = m.rvar(2)
+        y = m.ldr(2)
+        e = 2 * y[1] + 1
+        y.adapt(z)
+
+    def ldr_slice_adapt_after_slice_use():
+        m = ro.Model()
+        z = m.rvar(2)
+        y = m.ldr((2, 2))
+        m.st(y[:, 0].sum() <= 1)
+        y[1].adapt(z[0])
+
+    def ldr_sum_after_use():
+        m = ro.Model()
+        z = m.rvar(2)
+        y = m.ldr(2)
+        m.st(y.sum() <= 1)
+        y[0].adapt(z[1])
+
     def ldr_redeclare():
         m = ro.Model()
         z = m.rvar(2)
@@ -441,6 +469,10 @@ def run_illegal(case, ses):
     for tag, fn in [('re-declare scenario', redeclare_scenario), ('re-declare dependency', redeclare_dependency),
                     ('affine adaptation of integers', integer_affine), ('affine adaptation of a binary slice', binary_affine_slice),
                     ('LDR adaptation after use', ldr_after_use), ('LDR re-declared dependency', ldr_redeclare),
+                    ('LDR adaptation after use of a slice in a constraint', ldr_slice_after_use),
+                    ('LDR adaptation after use of a slice in an expression', ldr_expr_after_use),
+                    ('LDR slice adaptation after use of another slice', ldr_slice_adapt_after_slice_use),
+                    ('LDR slice adaptation after use of the summed rule', ldr_sum_after_use),
                     ('unknown scenario', unknown_scenario), ('adaptive rule times random variable', rule_times_random),
                     ('random variable of another model', foreign_rvar)]:
         expect_raise(tag, fn)
